@@ -564,7 +564,7 @@ class Verifier(Exec):
             if ecls not in con.raises and "*" in con.raises:
                 ecls = "*"
             if ecls not in con.raises:
-                self.oblige(s, "%s:raises-only" % con.name, z3.BoolVal(False),
+                self.oblige(s, "%s:raises-only[%s]" % (con.name, ecls), z3.BoolVal(False),
                             "raises %s (allowed: %s) on path %s" %
                             (ecls, sorted(con.raises), " / ".join(s.trace[-10:])))
                 return
